@@ -41,12 +41,23 @@ def run_case(case):
             for q, p in track:
                 f.write("%r %r\n" % (q, p))
         o["tracking"] = "track.txt"
+    if case.get("startleg"):
+        # the documented second way to start: from a phase-space record of an earlier results file (single bunch).  Every
+        # statement about the file of THIS run is unchanged - records, axes, moments, wake, units (round-5 seed C10e swaps
+        # charge and current of a grid loaded from a file; only the unit factors of the continued run show it)
+        d0 = cfggen.derive(o)
+        leg = dict(o, rotations=float(np.float32((case["startleg"] - 0.5) / d0["steps"])), outstep=1, SavePhaseSpace=1)
+        leg.pop("tracking", None)
+        r0 = cli.run(["-c", "/dev/null", "-o", "s.h5"] + cli.optargs(leg), wd)
+        if r0.rc != 0 or "Finished." not in r0.out:
+            return fail(True, ["startleg"], "first leg failed rc=%s: %s | %s" % (r0.rc, r0.out[-300:], r0.err[-300:]), "runfail")
+        o["InitialDistFile"] = "s.h5"
     r = cli.run(["-c", "/dev/null", "-o", "r.h5"] + cli.optargs(o), wd)
     d = cfggen.derive(o)
     n, nb = d["n"], d["nb"]
     outstep, h5save = o["outstep"], o["SavePhaseSpace"]
     cls = ["nb%d" % nb] + (["other_machine"] if "BeamEnergy" in o else []) + (["fs_route"] if o.get("SynchrotronFrequency") else []) \
-        + (["steps_per_revolution"] if o.get("StepsPerRevolution") else [])
+        + (["steps_per_revolution"] if o.get("StepsPerRevolution") else []) + (["from_results_file"] if case.get("startleg") else [])
     if r.rc != 0 or "Finished." not in r.out:
         return fail(True, cls, "run failed rc=%s: %s | %s" % (r.rc, r.out[-400:], r.err[-400:]), "runfail")
     h = cli.H5(os.path.join(wd, "r.h5"))
@@ -153,7 +164,9 @@ def run_case(case):
         for b in range(nb):
             # right after the initial normalisation (step 0, RenormalizeCharge >= 0) every bunch holds its share; later
             # records may have lost charge over the grid border, which this property does not exclude
-            if s == 0 and ren >= 0 and abs(pop[ri, b] / shares[b] - 1) > 1e-4:
+            # (only for the generated start distribution: a distribution loaded from a results file keeps the charge it was
+            # stored with, and on a renormalisation step the stored population is the one measured BEFORE rescaling)
+            if s == 0 and ren >= 0 and not case.get("startleg") and abs(pop[ri, b] / shares[b] - 1) > 1e-4:
                 return fail(nontriv, cls, "record %d (step %d): population of bunch %d is %.6g, its share of the filling is %.6g" % (ri, s, b, pop[ri, b], shares[b]), "rows:population", met)
             integ = (prof[ri, b] * w).sum()
             e = abs(integ - pop[ri, b]) / max(shares[b], abs(pop[ri, b]))
@@ -291,7 +304,10 @@ def cases(draw):
     if draw(st.integers(0, 9)) == 0:
         o["rotations"] = 0.0
     track = [[draw(st.floats(-4, 4)), draw(st.floats(-4, 4))] for _ in range(draw(st.sampled_from([0, 0, 1, 5])))]
-    return dict(opts=o, track=track)
+    c = dict(opts=o, track=track)
+    if len(o.get("BunchCurrent", [1])) == 1 and draw(st.integers(0, 3)) == 0:
+        c["startleg"] = draw(st.integers(1, 12))
+    return c
 
 
 # ------------------------------------------------------------------ rows follow the bunches: permuting the currents permutes the rows
